@@ -246,8 +246,8 @@ pub fn describe(p: &Produced, case: &DescCase) -> String {
 
 pub fn case_cfg(tier: Tier) -> CaseCfg {
     match tier {
-        Tier::Quick => CaseCfg { max_nodes: 12, max_leaves: 4, chaos_pct: 0, repeat_keys: false },
-        Tier::Thorough => CaseCfg { max_nodes: 40, max_leaves: 8, chaos_pct: 0, repeat_keys: true },
+        Tier::Quick => CaseCfg { max_nodes: 12, max_leaves: 4, chaos_pct: 0, repeat_keys: false, timelock_heavy: false },
+        Tier::Thorough => CaseCfg { max_nodes: 40, max_leaves: 8, chaos_pct: 0, repeat_keys: true, timelock_heavy: false },
     }
 }
 
